@@ -922,8 +922,13 @@ def main():
         "exhaustive": False,
         "traces_validated_against_impl": getattr(st, "traces", 0),
         "partial_theorems": [t for t in props["theorems"] if t.endswith("_partial")],
-        "differential_only": ["RRULE text -> onset list (rrulestr + rrule are another area's models): exercised "
-                              "by the correspondence only", "str.splitlines", "non-ASCII text"],
+        "differential_only": ["RRULE text -> onset list: proved for Mm.w.d rules with 0 <= time < 24 h by the link area "
+                              "(C17_rrule_* theorems appended to props/C17.v); differential only for the Jn / n "
+                              "forms (BYMONTHDAY / BYYEARDAY), the RDATE form and rule times outside 0..24 h",
+                              "tzical._parse_rfc text handling other than the translated pieces (str.splitlines, "
+                              "unfolding loop, state machine are hand-modelled, not regenerated)", "non-ASCII text"],
+        "regenerated_from_source": ["_tzicalvtz._find_compdt / utcoffset / dst / tzname", "tzical._parse_offset",
+                                    "lock discipline of _tzicalvtz._find_comp", "rrulestr(compatible=True) flag"],
         "known_findings_hit": verdict.known_hits,
     }
     C.write_evidence(CID, tier, t0, props, cov,
